@@ -53,6 +53,32 @@ fn main() {
                     Err(_) => "err".to_string(),
                 }
             }
+            // principal: "pt <hex>" bytes -> text ; "pf <text>" text -> bytes | error kind ; "ps <hex>" try_from_slice
+            "pt" => {
+                let b = hexd(&p[1]);
+                match ic_principal::Principal::try_from_slice(&b) {
+                    Ok(pr) => format!("ok {}", pr.to_text()),
+                    Err(_) => "err".to_string(),
+                }
+            }
+            "pf" => match ic_principal::Principal::from_text(&p[1]) {
+                Ok(pr) => format!("ok {}", hexe(pr.as_slice())),
+                Err(e) => format!("err {}", match e {
+                    ic_principal::PrincipalError::BytesTooLong() => "BytesTooLong",
+                    ic_principal::PrincipalError::InvalidBase32() => "InvalidBase32",
+                    ic_principal::PrincipalError::TextTooShort() => "TextTooShort",
+                    ic_principal::PrincipalError::TextTooLong() => "TextTooLong",
+                    ic_principal::PrincipalError::CheckSequenceNotMatch() => "CheckSequenceNotMatch",
+                    ic_principal::PrincipalError::AbnormalGrouped(_) => "AbnormalGrouped",
+                }),
+            },
+            "ps" => {
+                let b = hexd(&p[1]);
+                match ic_principal::Principal::try_from_slice(&b) {
+                    Ok(pr) => format!("ok {}", hexe(pr.as_slice())),
+                    Err(_) => "err".to_string(),
+                }
+            }
             _ => "bad".to_string(),
         });
         match r {
